@@ -6,6 +6,7 @@ P=$1; N=$2; ID=$3; NEEDS=$4
 WT=${WTROOT:-/tmp/wt}/$P
 HERE="$(cd "$(dirname "$0")/.." && pwd)"
 cd $WT || exit 2
+export PYTHONPATH=$WT/src
 git checkout -q -- src || exit 2
 [ -z "$(git status --porcelain -- src)" ] || { echo "worktree src not pristine"; exit 2; }
 git apply --check patch$N.diff || { echo "patch does not apply"; exit 2; }
